@@ -40,8 +40,12 @@ def _scaffold(core_items, core_params=None, extra_funcs=(), vars_=(), eps=(), mo
     else:
         for e in ("direct", "eval_df", "call_rootd", "eval_rootd"):
             entries.pop(e)
-        entries["keep_K"]["args"] = [a["lit"] for a in kargs["args"] if "lit" in a]
-        if any("lit" not in a for a in kargs["args"]) or kargs["kwargs"]:
+        def lit(a):
+            return a["lit"] if "lit" in a else "@" + a["ep"]
+        if all(("lit" in a or "ep" in a) for a in kargs["args"] + [x for _, x in kargs["kwargs"]]):
+            entries["keep_K"]["args"] = [lit(a) for a in kargs["args"]]
+            entries["keep_K"]["kwargs"] = [[n, lit(a)] for n, a in kargs["kwargs"]]
+        else:
             entries.pop("keep_K")
     rit = root_items if root_items is not None else []
     rit = rit + [{"k": "keep", "path": "/u/k", "fn": "K", "args": kargs["args"], "kwargs": kargs["kwargs"]}, {"k": "call", "fn": "S"}]
@@ -139,7 +143,7 @@ def unit_var_ctx(ctx, form):
 
 
 LIT = {"int": ("1", "2"), "float": ("1.5", "2.5"), "str": ("'a'", "'b'"), "bool": ("True", "False"), "none": ("None", "0"),
-       "negint": ("-1", "1"), "bigint": ("2**40", "2**40 + 1")}
+       "negint": ("-1", "1"), "bigint": ("1099511627776", "1099511627777")}
 
 
 def unit_arg(kind, ty="int"):
@@ -235,6 +239,19 @@ def unit_untracked_obj():
     return s
 
 
+def unit_twice(kind):
+    """the same function kept at two call sites of one evaluation with different run-time arguments"""
+    params = {"x": [["x", None]], "x_default": [["x", None], ["y", "0"]], "x_lit": [["x", None], ["y", None]]}[kind]
+    extra = [{"lit": "5"}] if kind == "x_lit" else []
+    funcs = [{"name": "K", "module": "main", "params": params, "body": []},
+             {"name": "root", "module": "main", "params": [], "body": [
+                 {"k": "const", "expr": "@A"}, {"k": "const", "expr": "2"},
+                 {"k": "keep", "path": "/t/a", "fn": "K", "args": [{"local": 0}] + extra},
+                 {"k": "keep", "path": "/t/b", "fn": "K", "args": [{"local": 1}] + extra}]}]
+    return {"id": f"U/twice/{kind}", "key": f"twice_rt|{kind}", "modules": ["main"], "vars": [], "funcs": funcs,
+            "entries": {"eval_root": {"kind": "eval", "fn": "root"}}, "eps": [{"id": "A", "kind": "lit_arg", "n": 2, "values": ["1", "3"]}]}
+
+
 def unit_structural(kind):
     """edits outside every cone: unrelated definitions, reordering, comments"""
     var = {"name": "V0", "module": "main", "values": ["1"]}
@@ -270,6 +287,7 @@ def unit_programs(level="quick"):
     out += [unit_ext("fn"), unit_ext("var")]
     out += [unit_structural(k) for k in ("unrel", "reorder", "cmt_other")]
     out.append(unit_untracked_obj())
+    out += [unit_twice(k) for k in ("x", "x_default", "x_lit")]
     return out
 
 
@@ -324,4 +342,35 @@ def composites(level="quick"):
                 if shape == "flat" and n > 1:
                     continue
                 out.append(composite(shape, list(c)))
+    return out
+
+
+# ------------------------------------------------------------------ C04: path shapes
+
+PATHSETS = [["/a", "/a2/b", "/c/d/e"], ["/c/d/e", "/c/d/f/g", "/cd/e"], ["/a/b/c", "/ab/c", "/a/bc"], ["/p/q/r/s", "/p/q/r/t", "/p/q2"],
+            ["/x y/z", "/\u00e9/w", "/x.y/.z"]]
+
+
+def c04_programs():
+    """three kept nodes under paths of 1-4 segments with shared directories; two roots keeping different subsets"""
+    out = []
+    for pi, paths in enumerate(PATHSETS):
+        for styles in (["datafn", "keep0", "keep0"], ["keep0", "datafn", "keeplit"]):
+            for shape in ("fan", "chain"):
+                sp = composite(shape, styles)
+                ren = {f"/c/n{i}": paths[i] for i in range(3)}
+                for f in sp["funcs"]:
+                    if f.get("datafn"):
+                        f["datafn"] = ren[f["datafn"]]
+                    for it in f["body"]:
+                        if it["k"] == "keep":
+                            it["path"] = ren[it["path"]]
+                # second root: only the last node (a leaf of the shape) - the other paths must keep what they serve
+                last = [it for f in sp["funcs"] for it in f["body"] if (it.get("fn") == "N2")][0]
+                sp["funcs"].append({"name": "root2", "module": "main", "params": [], "body": [copy.deepcopy(last)]})
+                sp["entries"]["eval_sub"] = {"kind": "eval", "fn": "root2"}
+                sp["eps"] = [e for e in sp["eps"] if e["id"] in ("V0", "V2")]
+                sp["id"] = f"P{pi}/{shape}/{'-'.join(styles)}"
+                sp["key"] = f"paths|set={pi}"
+                out.append(sp)
     return out
